@@ -29,7 +29,7 @@ import sqlimpl
 from common import Driver, Infra, canon_json, log
 
 QUICK_DIALECTS = ["ansi", "sparksql", "tsql", "bigquery", "mysql"]
-THOROUGH_EXTRA = ["postgres", "snowflake", "hive", "redshift", "trino", "databricks", "duckdb", "oracle", "clickhouse", "athena"]
+THOROUGH_EXTRA = ["postgres", "snowflake", "hive", "redshift", "trino"]
 EXPR_MASK = "<expr>"
 
 
@@ -351,11 +351,11 @@ def build_inputs(chk, drv):
     gen = []
     shapes = list(gensql.enumerate_shapes(1))
     rng.shuffle(shapes)
-    gen += shapes[: (120 if thorough else 22)]
+    gen += shapes[: (60 if thorough else 22)]
     Rg = gensql.Rand(rng, max_depth=3 if thorough else 2)
-    for i in range(160 if thorough else 30):
+    for i in range(80 if thorough else 30):
         gen.append((f"rand-{i}", Rg.stmt(rng.choice([1, 2, 2, 3]) if thorough else rng.choice([1, 2]))))
-    for i in range(20 if thorough else 4):
+    for i in range(10 if thorough else 4):
         gen.append((f"spark-{i}", Rg.spark_stmt(rng.choice([1, 2]))))
     gen += ddl_statements()
     uppers = [rng.random() < 0.25 for _ in gen]
@@ -409,7 +409,7 @@ def build_jobs(chk, inputs):
                 primary = di == (ii % len(ds))
                 jobs.append({"input": ii, "sql": inp["sql"], "dialect": d, "strict": inp["strict"], "seed": rng.randrange(2 ** 31),
                              "mode": "single" if primary or len(ds) == 1 else "sample",
-                             "cap": 150 if big else 1200, "n": (12 if big else 30) if primary or len(ds) == 1 else 10})
+                             "cap": 30 if big else 300, "n": (6 if big else 20) if primary or len(ds) == 1 else 6})
         else:
             per = max(2, -(-30 // len(ds)))
             for d in ds:
@@ -477,7 +477,7 @@ def report_failure(chk, drv, inp, dialect, rec, seen_classes):
     prepared = prepare(sql, dialect)
     if prepared[0] != "ok" or pair_fails(sql, dialect, small, inp["strict"], prepared) is None:
         return   # not reproducible in this process (everything is deterministic: should not happen)
-    if ast is not None and len(small) == 1 and small[0][0] != "semi" and drv is not None:
+    if ast is not None and len(small) == 1 and small[0][0] != "semi" and drv is not None and len(chk.violations) < 2:
         try:
             r = shrink_ast(drv, inp, dialect, small[0], cls_name)
         except Infra:
@@ -655,7 +655,13 @@ def run(chk):
                 chk.known(e["id"])
             else:
                 chk.stale.append({"kind": "known-finding-no-longer-fails", "id": e["id"], "witness": w})
-    results = sqlimpl.pool().map(work, jobs, chunksize=1)
+    # longest first, so that the large TPC-DS scripts do not end up as stragglers
+    jobs.sort(key=lambda j: -len(j["sql"]) * (j.get("cap", 0) if j.get("mode") == "single" else 0) - len(j["sql"]) * j.get("n", 1))
+    results = []
+    for i, r in enumerate(sqlimpl.pool().imap(work, jobs, chunksize=1)):
+        results.append(r)
+        if (i + 1) % 250 == 0:
+            log(f"[c07] {i + 1}/{len(jobs)} jobs")
     st = sqlcheck.Stats()
     by_kind, rej_kind = collections.Counter(), collections.Counter()
     singles_total = singles_run = 0
@@ -705,6 +711,8 @@ def run(chk):
         fid = finding_for(chk, cname)
         if fid:
             chk.known(fid, n)
+    # smallest witnesses first (generated statements can be shrunk further, corpus scripts cannot)
+    fails.sort(key=lambda x: (len(x[0]["sql"]), x[0]["ast"] is None))
     for inp, d, f in fails:
         if finding_for(chk, f["class"]):
             continue
@@ -743,7 +751,7 @@ def run(chk):
              "(25% with upper-case keywords), MERGE/UPDATE/COPY/script text templates, and the harvested corpus (tests + TPC-DS; "
              "quick: a stratified seeded sample of 75, thorough: all). variants per (statement, dialect): quick ~30 seeded rewrite sets "
              "spread over the dialects (single rewrites, small sets, dense sets, uniform sweeps); thorough: every single rewrite at every "
-             "eligible token boundary / word token for the statement's primary dialect (capped at 1200, 150 for scripts > 1500 chars: "
+             "eligible token boundary / word token for the statement's primary dialect (capped at 300, 30 for scripts > 1500 chars: "
              "then a seeded sample) + seeded combinations on every dialect. evaluations = LineageRunner runs (originals + variants) plus "
              "direct-correspondence cases; non-trivial = the original reports at least one table or column path; distinct by (SQL text, dialect)",
         trusted_base=["Lean 4.33 kernel", "axioms: propext, Classical.choice, Quot.sound", "tools/translate.py (Gen/Const.lean, Gen/Dispatch.lean)",
